@@ -23,7 +23,8 @@ RULE = ("(1) Mask helper: complete enumeration of all tuples of 1..5 (quick) / 1
         "caller's unmasked scalar, and whose labelling/cost are optimal for the all-pairs objective, matches the signature of "
         "known finding KF1; a misplaced mask or a cost matching neither objective is a violation. (3) ticc_joint_labels([X]) "
         "must equal ticc_labels(X) field by field, bitwise, from equal RNG states. Non-trivial = >= 2 series and >= 1 boundary "
-        "pair whose final labels differ (or, for (3), a completed pair of runs with W>=2; for (1) >= 2 series); distinct by SHA-1.")
+        "pair whose final labels differ (or, for (3), a completed pair of runs with W>=2; for (1) >= 2 series); distinct by SHA-1."
+        ' The mask times a switching cost (0.1, 1/3, 7.3, 1e300, 5e-324, 1e-300) must price every within-series pair at exactly that cost; joint runs also with a narrower first series (float32 / int64).')
 ASSUMPTIONS = ["the switching cost and cost table handed to the labelling step are observed through the guarded relabel_inputs hook"]
 
 
@@ -54,6 +55,15 @@ def check_mask(lengths, t):
         zeros_got = [i for i, v in enumerate(got_l) if v == 0.0]
         zeros_exp = [i for i, v in enumerate(exp) if v == 0.0]
         raise Violation(f"mask for stacked lengths {lengths} has zeros at {zeros_got}, boundary pairs are priced by entries {zeros_exp}")
+    # the mask is a template: callers (and the joint front end) multiply it by the switching cost; every within-series pair must
+    # then carry exactly that cost and every boundary pair exactly 0 - for costs of any legal magnitude
+    for beta in (0.1, 1.0 / 3.0, 7.3, 1e300, 5e-324, 1e-300):
+        prod = np.asarray(beta * got)
+        want = [beta * v for v in exp]
+        if prod.shape[0] != len(want) or any(float(a) != b for a, b in zip(prod.ravel(), want)):
+            i = next(i for i, (a, b) in enumerate(zip(prod.ravel(), want)) if float(a) != b)
+            raise Violation(f"switching cost {beta!r} times the mask prices pair {i} at {float(prod.ravel()[i])!r}, expected {want[i]!r} "
+                            f"(mask element type {np.asarray(got).dtype})")
 
 
 def enumerate_masks(tier):
@@ -78,7 +88,11 @@ def execute_e2e(case, t):
     # (a) no stacked window mixes rows of two series
     from props.C10 import expected_stack
     exp = np.vstack([expected_stack(np.ascontiguousarray(s, dtype=np.float64), W) for s in tr.series])
-    got = np.ascontiguousarray(tr.begin["stacked"]).view(np.uint64)
+    got = np.ascontiguousarray(tr.begin["stacked"])
+    if got.dtype != np.float64:
+        # (whatever the element type of the stacked array, its values must be those of the series)
+        got = got.astype(np.float64)
+    got = got.view(np.uint64)
     if got.shape != exp.shape or not np.array_equal(got, exp):
         raise Violation(f"stacked data handed to the main loop is not the concatenation of the per-series stackings (lengths {[len(s) for s in tr.series]}, W={W})")
     T = sum(lens)
